@@ -16,6 +16,18 @@ Fixpoint wf2 (v : val) : bool :=
   | _ => true
   end.
 
+(* the prefix update(namespace, key) puts in front of every item key: `key + "." if key else ""` *)
+Definition upd_prefix (k : option str) : str :=
+  match k with Some (c :: k') => (c :: k') ++ [DOT] | _ => [] end.
+
+(* update(namespace, key, only_unset) assigns self[prefix + item_key] for every leaf item of the source: each of
+   those keys must be a key of user-visible names (as for ns[k] = v; keys the code rejects are included) *)
+Definition upd_keys_ok (src : val) (k : option str) : bool :=
+  match src with
+  | VNs sd => forallb (fun kv => wf_key (upd_prefix k ++ fst kv)) (ns_items false sd)
+  | _ => true
+  end.
+
 Definition wf_op_fx (o : op) : bool :=
   match o with
   | OSet k v => wf_key k && wf2 v
@@ -24,7 +36,7 @@ Definition wf_op_fx (o : op) : bool :=
   | OGet k | OContains k | ODel k | OGetSteps k => wf_key k
   | OGetD k _ | OPop k _ => wf_key k
   | OUpdV v k _ => wf2 v && wf_okey k
-  | OUpdNs src k _ => wf2 src && plain src && wf_okey k
+  | OUpdNs src k _ => wf2 src && upd_keys_ok src k
   | OClone | OItems _ | OAsDict => true
   | OEq v => wf2 v
   | OInitDict d =>
@@ -35,11 +47,19 @@ Definition wf_op_fx (o : op) : bool :=
   | OFromDict _ => true
   end.
 
+(* operations covered by the proved refinement of the current code: the core of Model/NsGuard.v AND
+   update(namespace, key, only_unset) *)
+Definition core_op_fx (o : op) : bool :=
+  match o with
+  | OUpdNs _ _ _ => true
+  | _ => core_op o
+  end.
+
 (* 0 = inside the theorem; 2 = ill-formed key or value; 3 = an operation outside the proved core
-   (update(namespace), Namespace(dict), dict_to_namespace, ==, step-by-step get as a history step) *)
+   (Namespace(dict), dict_to_namespace, ==, step-by-step get as a history step) *)
 Definition hist_class_fx (ops : list op) : N :=
   if negb (forallb wf_op_fx ops) then 2%N
-  else if negb (forallb core_op ops) then 3%N
+  else if negb (forallb core_op_fx ops) then 3%N
   else 0%N.
 
 End WithClash.
